@@ -7,12 +7,27 @@ use crate::world::*;
 #[derive(Default)]
 pub struct C11Oracle {
     reference: Option<Option<u128>>,
+    bare_reference: Option<Option<u128>>,
     nontrivial: u64,
 }
 
 impl StepOracle for C11Oracle {
     fn pre_step(&mut self, w: &mut World, step: &Step, intent: &Intent, _gs: &GenState) {
         self.reference = None;
+        self.bare_reference = None;
+        if let Intent::Route { ops, delivered, extras, minimum: Some(_), receiver } = intent {
+            // Coins attached besides the input that no hop offers cannot change what the route delivers (they
+            // sit in the router).  D0 = what the same route delivers WITHOUT them and without a minimum, on a
+            // fork: whatever happens to those coins, a success with minimum_receive above D0 is a violation.
+            let offered = |a: &haloswap::asset::AssetInfo| ops.iter().any(|haloswap::router::SwapOperation::HaloSwap { offer_asset_info, .. }| offer_asset_info == a);
+            if !extras.is_empty() && extras.iter().all(|(a, _)| !offered(a)) {
+                let mut bare = without_minimum(step);
+                bare.funds.retain(|c| !extras.iter().any(|(a, _)| matches!(a, haloswap::asset::AssetInfo::NativeToken { denom } if *denom == c.denom)));
+                let mut f = w.fork();
+                let rec = f.exec(bare);
+                self.bare_reference = Some(if rec.outcome.is_ok() { route_net_growth(&rec, ops, delivered, &step.sender, receiver).map(|v| v.max(0) as u128) } else { None });
+            }
+        }
         if let Intent::Route { ops, delivered, minimum: Some(_), receiver, .. } = intent {
             // D: what the same route delivers without minimum_receive, on a fork of this very state
             let mut f = w.fork();
@@ -68,6 +83,15 @@ impl StepOracle for C11Oracle {
             }
         } else {
             classes.push("r:route-reverted");
+        }
+        if let Some(Some(d0)) = self.bare_reference.take() {
+            classes.push("m:extra-coins-no-hop-offers");
+            if ok && d0 < m {
+                return Verdict::Fail(format!(
+                    "step {}: the route delivers {} when the further attached coins (which no hop offers) are left out, but with them it succeeded with minimum_receive {}: the recipient's own coins were counted as proceeds",
+                    cx.index, d0, m
+                ));
+            }
         }
         if let Some(d) = d {
             if d < m && ok {
